@@ -30,9 +30,13 @@ func sendSteps(t *rapid.T, cfg sim.Config, max int, label string) []sim.Step {
 		wb = 4096
 	}
 	var sizes []int
+	limit := 200000
+	if split > 0 && split*40 < limit {
+		limit = split * 40 // keep the number of frames (and director steps) per message bounded
+	}
 	add := func(v int) {
 		v -= 17 // payload overhead: the message body is size+17 bytes
-		if v >= 0 && v < 200000 {
+		if v >= 0 && v < limit {
 			sizes = append(sizes, v)
 		}
 	}
